@@ -194,6 +194,16 @@ def _check_sample(ctx, run, model, train_df, n, recognised):
                 ctx.violate('b_draw_covariance_is_fitted_correlation', SUBJECT,
                             'max |cov - correlation| = %.3g' % float(np.max(np.abs(cov - R))),
                             **cond)
+            # Phi(z_j) is uniform - and the column follows its fitted marginal - only if the
+            # draw has unit variance in that coordinate (up to the 1.2e-7 ridge)
+            diag = np.diag(cov)
+            noncon = np.array([not gmvlib.is_constant_uni(u) for u in model.univariates])
+            if noncon.any() and np.max(np.abs(diag[noncon] - 1.0)) > 1e-5:
+                j = int(np.argmax(np.where(noncon, np.abs(diag - 1.0), 0)))
+                ctx.violate('b_draw_has_unit_variance', SUBJECT,
+                            'column %r: the normal scores are drawn with variance %.6f, so '
+                            'Phi(z) is not uniform and the column cannot follow its marginal'
+                            % (model.columns[j], float(diag[j])), **cond)
             if rec.psd_warnings:
                 ctx.violate('b_draw_covariance_psd', SUBJECT,
                             'numpy reported a covariance that is not positive-semidefinite',
